@@ -5,7 +5,7 @@ of one run (in a worker process) and restored afterwards.  The trace separates O
 (candidate sets, target values, GP estimates, random draws) from DETERMINED fields (filtered sets,
 which point is evaluated, counters, mesh exponents, incumbent, history, result); the Lean models
 predict the latter from the former."""
-import os, sys, traceback, hashlib, pickle, time
+import os, sys, traceback, hashlib, pickle, time, json
 import numpy as np
 
 ITER_CAP = 20000   # hard stop for a loop that does not terminate (reported as a failing history)
@@ -37,7 +37,8 @@ def _vec(a):
     return [float(v) for v in np.asarray(a, dtype=float).reshape(-1)]
 
 
-def run_traced(spec, fault=None, gp_faults=None, predict_faults=None, ei_script=None, max_filt_rows=600, want=("call", "filt", "ctl", "hist", "gp")):
+def run_traced(spec, fault=None, gp_faults=None, predict_faults=None, ei_script=None, max_filt_rows=600, want=("call", "filt", "ctl", "hist", "gp"),
+               es_script=None, iter_cap=None):
     """Execute one run described by `spec`; returns a picklable trace dict."""
     import logging
     logging.disable(logging.CRITICAL)
@@ -56,7 +57,7 @@ def run_traced(spec, fault=None, gp_faults=None, predict_faults=None, ei_script=
 
     fun, x0, lb, ub, plb, pub, cons_fn, opts, aux = gen.build(spec, fault=fault)
     ev = []
-    tr = {"spec": spec, "fault": fault, "gp_faults": gp_faults, "predict_faults": predict_faults, "ei_script": ei_script, "events": ev, "error": None, "result": None,
+    tr = {"spec": spec, "fault": fault, "gp_faults": gp_faults, "predict_faults": predict_faults, "ei_script": ei_script, "es_script": es_script, "events": ev, "error": None, "result": None,
           "hdr": None, "final": None, "log": None, "constructed": False}
     state = {"phase": ["pre"], "bads": None, "loop": 0, "gpfit_idx": 0, "cons_calls": []}
 
@@ -196,8 +197,8 @@ def run_traced(spec, fault=None, gp_faults=None, predict_faults=None, ei_script=
     def w_usb(self):
         r = o_usb(self)
         state["loop"] += 1
-        if state["loop"] > ITER_CAP:
-            raise LoopBoundExceeded(f"main loop exceeded {ITER_CAP} iterations")
+        if state["loop"] > (iter_cap or ITER_CAP):
+            raise LoopBoundExceeded(f"main loop exceeded {iter_cap or ITER_CAP} iterations")
         s = snap(self)
         s["lb_search"] = _vec(r[0])
         s["ub_search"] = _vec(r[1])
@@ -241,13 +242,17 @@ def run_traced(spec, fault=None, gp_faults=None, predict_faults=None, ei_script=
 
     def w_ei(self, f_base, f_new, s_base, s_new, q):
         z = o_ei(self, f_base, f_new, s_base, s_new, q)
-        if ei_rng is not None and np.size(f_new) == 1 and np.size(z) == 1:
+        if ei_rng is not None and np.size(f_new) == 1 and np.size(z) == 1 and not (state["phase"][-1] == "search" and state.get("es_empty")):
             # ORACLE SCRIPTING: the improvement (a function of GP estimates in the models) is replaced by a scripted value, so that the
             # controller meets outcome sequences natural runs rarely produce (success while stalling, runs of successes, ...)
             thr = float(np.asarray(getattr(self, "sufficient_improvement", 1.0)).reshape(-1)[0])
             tol = float(self.options["tol_fun"])
-            kind = ei_rng.choices(["big", "mid", "tiny", "neg"], weights=ei_script.get("weights", [3, 2, 3, 3]))[0]
-            val = {"big": thr * 4 + 1.0, "mid": min(thr, tol) * 0.5, "tiny": tol * 1e-3, "neg": -1.0}[kind]
+            wts = list(ei_script.get("weights", [3, 2, 3, 3]))
+            wts += [1.5, 0.7, 0.7][: max(0, 7 - len(wts))]
+            kind = ei_rng.choices(["big", "mid", "tiny", "neg", "tie", "above", "below"], weights=wts)[0]
+            # "tie": exactly the sufficient-improvement threshold (success needs STRICTLY more); "above"/"below": one ulp either side
+            val = {"big": thr * 4 + 1.0, "mid": min(thr, tol) * 0.5, "tiny": tol * 1e-3, "neg": -1.0, "tie": thr,
+                   "above": float(np.nextafter(thr, np.inf)), "below": float(np.nextafter(thr, -np.inf))}[kind]
             z = np.array([val]) if isinstance(z, np.ndarray) else val
         rec = {"f_base": _f(f_base), "f_new": _f(f_new), "s_base": _f(s_base), "s_new": _f(s_new), "z": _f(z),
                "phase": state["phase"][-1], "vec": bool(np.size(f_new) > 1)}
@@ -285,6 +290,17 @@ def run_traced(spec, fault=None, gp_faults=None, predict_faults=None, ei_script=
             r = o_hedge(self, u, lbb, ubb, func_logger, gp, optim_state)
         finally:
             state["phase"].pop()
+        if es_script is not None:
+            # ORACLE SCRIPTING of the candidate generator: from the K-th search on (or at scripted positions) the strategy proposes nothing,
+            # exactly as when every candidate of every generation is infeasible (es_search.py returns an empty set)
+            k = state.setdefault("es_idx", 0)
+            state["es_idx"] = k + 1
+            after = es_script.get("empty_after")
+            if (after is not None and k >= after) or k in (es_script.get("empty_at") or ()):
+                D = int(np.atleast_2d(u).shape[1])
+                r = (np.empty((0, D)), np.empty((0, 1)))
+                ev.append(("ESSCRIPT", {"k": k}))
+        state["es_empty"] = np.size(r[0]) == 0        # the improvement of an empty search is not an oracle value: never scripted
         ev.append(("HEDGE", {"prob": _vec(self.prob), "chosen": int(np.asarray(self.chosen_hedge).reshape(-1)[0]), "g": _vec(self.g),
                              "gamma": float(self.gamma), "n": int(self.n_funs), "u_out": _vec(r[0]), "z_out": _f(r[1])}))
         return r
@@ -553,7 +569,9 @@ def cached(tag, seed, tier, make_jobs):
     from .proto import VERIF
     cdir = os.path.join(VERIF, ".cache")
     os.makedirs(cdir, exist_ok=True)
-    key = f"{tag}_{repo_hash()}_{seed}_{tier}.pkl"
+    jobs = list(make_jobs())
+    jh = hashlib.sha256(json.dumps(jobs, sort_keys=True, default=str).encode()).hexdigest()[:10]     # the jobs themselves (generated in props/)
+    key = f"{tag}_{repo_hash()}_{jh}_{seed}_{tier}.pkl"
     path = os.path.join(cdir, key)
     if os.path.exists(path):
         try:
@@ -561,7 +579,7 @@ def cached(tag, seed, tier, make_jobs):
                 return pickle.load(f)
         except Exception:
             pass
-    traces = run_many(make_jobs())
+    traces = run_many(jobs)
     # drop stale entries of the same tag
     for fn in os.listdir(cdir):
         if fn.startswith(tag + "_") and fn != key:
